@@ -27,6 +27,12 @@ def run(harness, timeout=600, extra=None, keep=False):
                 exec(open(pre).read(), ns)
                 src = ns['rewrite'](src)
             open(tp, 'w').write(src + open(p).read())
+        # the policy harness stubs getrandom::getrandom, which has to be a DIRECT dependency for the stub path to resolve
+        ct = os.path.join(tmp, 'memcrs', 'Cargo.toml')
+        c = open(ct).read()
+        if 'getrandom' not in c:
+            c = c.replace('[dependencies]', '[dependencies]\ngetrandom = "0.2"', 1)
+            open(ct, 'w').write(c)
         os.makedirs(os.path.join(tmp, '.cargo'), exist_ok=True)
         open(os.path.join(tmp, '.cargo', 'config.toml'), 'w').write('[net]\noffline = true\n')
         env = dict(os.environ, CARGO_NET_OFFLINE='true', CARGO_TARGET_DIR=os.path.join(ROOT, 'build', 'kani-target'))
